@@ -274,16 +274,28 @@ pub fn impl_(ctx: &Context, input: &DeriveInput) -> TokenStream {
                     Fields::Unnamed(..) => quote! { (#pat_body) },
                     Fields::Named(..) => quote! { { #pat_body } },
                 };
+                // Check the room for this variant before the tag (or anything else) is written.
+                let size_gate = if !var.fields.is_empty() {
+                    let type_list = type_list(var.fields.iter());
+                    quote! {
+                        iter::type_list!(#type_list)
+                            .check_align_and_min_size(__flatty_bytes.get_unchecked(__flatty_offset..(__flatty_offset + __flatty_len)))
+                            .map_err(|e| e.offset(__flatty_offset))?;
+                    }
+                } else {
+                    quote! {}
+                };
                 quote! {
                     #accum
                     #init_ident::#ident #pat => {
-                        #set_tag
                         let __flatty_offset = <#self_ident<#self_args>>::DATA_OFFSET;
                         // Hand out exactly the bytes the view made by `ptr_from_bytes` covers.
                         let __flatty_len = ::flatty::utils::floor_mul(
                             __flatty_bytes.len() - __flatty_offset,
                             <#self_ident<#self_args> as ::flatty::traits::FlatBase>::ALIGN,
                         );
+                        #size_gate
+                        #set_tag
                         let __flatty_bytes = __flatty_bytes.get_unchecked_mut(__flatty_offset..(__flatty_offset + __flatty_len));
                         #body
                     }
